@@ -486,6 +486,13 @@ func c11fields(c *Ctx, p *load.Program) {
 			}
 		}
 		fs := facts.At(s.Instr, nil)
+		// when the message is allocated first and filled in step by step, the tests lie between
+		// the allocation and the accepting return that hands it out: judge them there
+		for _, r := range acceptingReturns(fn) {
+			if strip(returnValues(r)[0]) == ssa.Value(s.Instr.(*ssa.Alloc)) {
+				fs = acceptFacts(r)
+			}
+		}
 		if !facts.Has(fs, func(a string) bool {
 			return a == fmt.Sprintf("%d == len(fields)", sz) || a == fmt.Sprintf("len(fields) == %d", sz)
 		}) {
